@@ -26,7 +26,7 @@ const supervisorFallbackCloseTimeout = 10 * time.Second
 // never names a raw event constant — transport-detected transitions enter through the named
 // TransportRuntime methods (TCPUp/TCPDown/CommitSelected/SelectLost) — so this type stays
 // unexported (spec §5.3/§5.4).
-type fsmEvent uint8
+type fsmEvent uint32
 
 const (
 	evTCPUp          fsmEvent = iota // TCP came up: NotConnected -> NotSelected
@@ -35,6 +35,19 @@ const (
 	evDisconnect                     // TCP dropped: Selected/NotSelected -> NotConnected
 	evClose                          // voluntary Close: any state -> NotConnected
 	evT7Timeout                      // T7 NOT-SELECTED dwell expired: NotSelected -> NotConnected (no-op otherwise)
+)
+
+// evGenTagged marks an evDisconnect / evT7Timeout that carries, in bits 8..31, the TCP-generation
+// counter (supervisor.gen) read when the transport reported it (TCPDown / T7Expired). The events
+// queue outlives a TCP generation, so such an event can still be queued when the NEXT generation has
+// already committed TCP-up (e.g. the second of two TCPDown calls of a dying generation, with a fast
+// reconnect): step() drops a tagged event whose generation is no longer current instead of letting it
+// disconnect the successor. Raw (untagged) events keep the plain table semantics.
+const (
+	evGenTagged fsmEvent = 0x40
+	evKindMask  fsmEvent = 0x3F
+	evGenShift           = 8
+	evGenMask   uint32   = 0xFFFFFF
 )
 
 // stateChange is one logical E37 transition, reported to the notifier as (prev -> next).
@@ -61,6 +74,7 @@ type supervisor struct {
 	state         atomic.Uint32              // stores a ConnState; lock-free hot-path reads + State()
 	lastReacted   ConnState                  // run-owned; dedups reactions/notify (H3; tolerates the H2 pre-commit)
 	closed        bool                       // run-owned; LATCHED true once evClose is processed (I2) — later events ignored
+	gen           atomic.Uint32              // TCP generation counter: +1 per successful CommitConnected (see evGenTagged)
 	events        chan fsmEvent              // SOLE reader is run(); GUARANTEED command queue (inject blocks, never drops)
 	notify        chan stateChange           // SOLE sender is run(); NON-BLOCKING drop-OLDEST coalescing
 	droppedNotify atomic.Uint64              // count of coalesced/dropped notifications; surfaced via a rate-limited Warn (M4)
@@ -205,6 +219,7 @@ func (s *supervisor) State() ConnState {
 // only transition out of NotConnected is evTCPUp itself, so the CAS always succeeds in practice).
 func (s *supervisor) CommitConnected() (committed bool) {
 	if s.state.CompareAndSwap(uint32(NotConnectedState), uint32(NotSelectedState)) {
+		s.gen.Add(1) // a new TCP generation: evDisconnect/evT7Timeout tagged with an older one are now stale
 		s.inject(evTCPUp)
 
 		return true
@@ -294,6 +309,14 @@ func (s *supervisor) step(ev fsmEvent) {
 	if s.closed {
 		return
 	}
+
+	// A generation-tagged evDisconnect/evT7Timeout reported by a generation that is no longer the
+	// current one is stale (see evGenTagged): drop it rather than disconnect the successor generation.
+	if ev&evGenTagged != 0 && uint32(ev>>evGenShift) != s.gen.Load()&evGenMask {
+		return
+	}
+
+	ev &= evKindMask
 
 	cur := ConnState(s.state.Load())
 
@@ -414,6 +437,12 @@ func (s *supervisor) inject(ev fsmEvent) {
 	case s.events <- ev:
 	case <-s.runDone:
 	}
+}
+
+// injectTagged enqueues ev (evDisconnect / evT7Timeout) tagged with the CURRENT TCP generation, read
+// at call time — i.e. while the reporting transport goroutine still belongs to that generation.
+func (s *supervisor) injectTagged(ev fsmEvent) {
+	s.inject(ev | evGenTagged | fsmEvent(s.gen.Load()&evGenMask)<<evGenShift)
 }
 
 // requestClose pins the exact epoch the supervisor must ensure-tear-down (so Close and the
